@@ -30,6 +30,14 @@ CHECKS = {
          "Exploration: ~200k generated grammars (quick) x rules x inputs, ~2.5M parse pairs; outcome equality (tokens or error position/line-col/rule sets), no panic with detail on, max_position on a char boundary in range, help message renders.",
          "VM back-end; process-global switch handled by single-threaded worker processes. Says nothing about the *content* of the help message beyond renderability.",
          "DESIGN.md section 4, C15"),
+ "C07": ("round trip: abstract grammar -> adversarially spelled concrete text -> pest_meta reader -> structural equality, proptest-generated grammars and spellings, both configurations",
+         "Exploration: ~400k generated (grammar, spelling) pairs per configuration (quick); every inter-token gap, escape form, doc comment, leading `|` and redundant parenthesis is chosen independently; the rules read back must equal the abstract rules exactly.",
+         "Only grammars that pass validation are in the domain (consume_rules validates). The canonical printer and the speller share the precedence table in the harness; a slip there would show as a false alarm, not a miss.",
+         "DESIGN.md section 4, C07"),
+ "C09": ("totality fuzzing of the grammar front-end with token-level mutations of real and generated grammars, truncations and token soup; oracle = returns + located renderable errors",
+         "Exploration: ~1M texts (quick) from four sources; every call is wrapped in catch_unwind in a worker process whose death is attributed to the journaled in-flight text; error locations are checked against the text and rendered.",
+         "Inputs bounded as stated (4 KiB, nesting 200, repetition-count product 4096). libFuzzer campaigns are not part of the registered commands.",
+         "DESIGN.md section 4, C09"),
  "C10": ("exhaustive small-scope enumeration of strings x offsets x offset pairs + proptest strings, against direct definitions of line/column/line containment",
          "Exploration: all strings of <= 6 symbols (quick) / 8 (thorough) over {a, LF, CR, TAB, e-acute, emoji} with every offset and offset pair, plus random long strings; Position/Span/Pair/Error line-column results and the rendered error text are compared with the definitions. Bounded-exhaustive plus sampled.",
          "Marker alignment is not asserted when a lone CR precedes the offset on its line; empty-span lines() may be empty or the containing line; see DESIGN.md C10.",
